@@ -171,6 +171,24 @@ def main():
         if v is None: continue
         case = dict(op=o['op'], meta=o.get('meta', {}), impl=a, model=b, why=v[1])
         (failures if v[0] == 'fail' else drift).append(case)
+    # A difference between the implementation and the model over the *regenerated* facts is a failing input only if the
+    # implementation also differs from the model over the facts of the transcribed tree.  If it agrees with that one, the code
+    # behaves as the proved model does and it is the translation of the facts that is unfaithful (a rewrite the extractor reads
+    # wrongly): the tie is broken — reported as such, without presenting a failing input that is none.
+    mdiff = [c for c in failures if c['why'] == 'implementation and proved model differ']
+    if mdiff and not use_pinned and not args.replay:
+        okp, outp = R.build_pinned_driver()
+        if okp:
+            pm, _ = R.run_model([c['op'] for c in mdiff], pinned=True)
+            moved = []
+            for c, pb in zip(mdiff, pm):
+                if pb is not None and prop.projection(dict(op=c['op'], meta=c['meta']), c['impl']) == prop.projection(dict(op=c['op'], meta=c['meta']), pb):
+                    c['why'] = 'implementation agrees with the model over the transcribed facts but not with the model over the regenerated facts: the facts are mistranslated'
+                    c['pinned_model'] = pb; moved.append(c)
+            if moved:
+                ids = set(id(c) for c in moved)
+                failures = [c for c in failures if id(c) not in ids]; drift += moved
+                notes.append('%d disagreements attributed to the translation of the facts (implementation = transcribed model)' % len(moved))
     failures += post_failures
     # 5. known findings: partition failures
     fresh = []
